@@ -49,6 +49,12 @@ def scenarios_for(prop, tier, rng):
         if not thorough:
             rng.shuffle(cases); cases = cases[:60]
         return agentgen.c15_scenarios(cases, prop, rng), gens, {"c15_cases": len(cases)}
+    if prop == "C14":
+        cases, r = tlc_cases("garble", 1 if thorough else 0, f"{prop}-gen-garble"); gens.append(r)
+        return agentgen.garble_scenarios(cases, prop), gens, {"damaged_reply_cases": len(cases)}
+    if prop == "C13":
+        cases, r = tlc_cases("style", 1 if thorough else 0, f"{prop}-gen-style"); gens.append(r)
+        return agentgen.style_scenarios(cases, prop), gens, {"reply_styles": len(cases)}
     if prop == "C16":
         cases, r = tlc_cases("shape", 0, f"{prop}-gen"); gens.append(r)
         if not thorough:
@@ -99,6 +105,27 @@ def run_and_validate(prop, tier, scenarios, wd):
     run_harness("agentrun", ["agent", spath, os.path.join(REPO_BIN, "bgpfu-junos-agent"), 8], trace, timeout=3000)
     stats, viols = validate_trace("AgentTrace", trace, prop, f"{prop}-{tier}", TRACE_CFG, nchunks=8)
     return trace, stats, viols
+
+def side_run(prop, tier, verdict):
+    """Agent part of a property whose main check lives in another engine (C13: the router's replies and
+    configuration data in every style).  Reports violations through `verdict`, returns coverage facts."""
+    wd = workdir(f"{prop}-{tier}-agent")
+    build_harness(["agentrun"]); build_repo_bins()
+    scenarios, gens, counts = scenarios_for(prop, tier, random.Random(seed()))
+    trace, stats, viols = run_and_validate(prop, tier + "-agent", scenarios, wd)
+    bycase = {s["case"]: s for s in scenarios}
+    for v in viols:
+        if v["prop"] == "TOOL":
+            raise ToolError(f"{v['rule']} in case {v.get('case')}: the fake router and Junos.tla disagree")
+        if v["prop"] == prop:
+            verdict.report(v["rule"], v["disc"], {"property": prop, "rule": v["rule"], "disc": v["disc"], "occurrences": v.get("n", 1),
+                                                  "scenario": bycase.get(v.get("case")), "events": trace_slice(trace, v.get("case"), 80)},
+                           detail=f"case={v.get('case')} n={v.get('n', 1)}")
+    tool = [json.loads(l) for l in open(trace) if '"tool_error"' in l]
+    if tool:
+        raise ToolError(f"fake router: {tool[0]}")
+    return dict(counts, agent_scenarios=len(scenarios), agent_runs=stats.get("runs"), agent_runs_reporting_success=stats.get("okruns"),
+                agent_trace_lines=stats["lines"], agent_sample=scenarios[len(scenarios) // 2]["meta"])
 
 def check(prop, tier):
     t0 = time.time()
